@@ -71,7 +71,7 @@ def creds_of(body):
 rt.NATIVE_FUNCS.add(creds_of)
 
 
-def setup(ctx, log, persist_cookies, advertised, configured):
+def setup(ctx, log, persist_cookies, advertised, configured, fault=None):
     fs = FakeFS(log)
     ctx.stub_attr(config, "DATADIR", FakePath(fs, ["data"]))
     ctx.stub(Client, "open", fs.open)
@@ -85,11 +85,19 @@ def setup(ctx, log, persist_cookies, advertised, configured):
 
     def responder(req):
         uid, pw, is_prof = creds_of(req["data"])
+        if is_prof and fault == "profile_fetch":
+            import urllib.error
+            raise urllib.error.URLError("connection refused")
+        if is_prof and fault == "profile_http":
+            import urllib.error
+            raise urllib.error.HTTPError(req["url"], 503, "Service Unavailable", None, None)
         return profile if is_prof else b"RESPONSE"
     net = FakeNet(log, responder)
     ctx.stub(urllib.request, "HTTPCookieProcessor", net.HTTPCookieProcessor)
     ctx.stub(urllib.request, "build_opener", net.build_opener)
     ctx.stub(urllib.request, "Request", net.Request)
+    if fault in ("write", "replace"):
+        fs.fail = fault
     client = OFXClient(configured, userid="alice", org="O", fid="F", persist_cookies=persist_cookies, useragent="UA/1", bankid="B", brokerid="BR")
     return fs, client
 
@@ -156,6 +164,35 @@ def h_send(ctx, kind):
     ctx.check("the client's cookie jar is never replaced", client.cookiejar is jar)
 
 
+def h_send_fault(ctx, kind):
+    """the profile lookup fails part-way (network error, HTTP error, the cache cannot be written): whatever happens then, the
+    user's credentials are never sent to a URL the profile does not advertise for that request"""
+    log = []
+    fault = ctx.choice("fault", ["profile_fetch", "profile_http", "write", "replace"])
+    persist = ctx.bool("persist_cookies")
+    cache = ctx.bool("profile_cached")
+    cfg = "https://" + ctx.str("cfg_host", 2, "a-z") + "/ofx"
+    adv = "https://" + ctx.str("adv_host", 2, "a-z") + "/ofx"
+    fs, client = setup(ctx, log, persist, adv, cfg, fault)
+    if cache:
+        fs.files["data/fiprofiles/O-F.profrs"] = ProfilePayload(datetime.datetime(2020, 1, 1, tzinfo=UTC), [])
+    failed = False
+    try:
+        do_request(ctx, client, kind, False, False)
+    except OSError:
+        failed = True
+    ctx.observe("request_failed", failed)
+    for e in log:
+        if e[0] != "POST":
+            continue
+        req = e[1]
+        uid, pw, is_prof = creds_of(req["data"])
+        if is_prof:
+            ctx.check("profile requests carry only the anonymous placeholder credentials", uid == AUTH_PLACEHOLDER and pw == AUTH_PLACEHOLDER)
+        else:
+            ctx.check("after a failed profile lookup the user's credentials still go only to the advertised URL", req["url"] == adv)
+
+
 def profile_date_of(body):
     """DTPROFUP of a serialized profile request - read natively by the real parser"""
     t = OFXTree()
@@ -217,7 +254,7 @@ def h_jars(ctx):
     ctx.check("the jar is an instance attribute, not shared class state", "cookiejar" in a.__dict__ and "cookiejar" not in vars(OFXClient))
 
 
-HARNESSES = dict(send=h_send, jars=h_jars, two_institutions=h_two_institutions)
+HARNESSES = dict(send_fault=h_send_fault, send=h_send, jars=h_jars, two_institutions=h_two_institutions)
 
 META = dict(
     bounds=dict(requests="statements (one or two of the five statement request kinds; the profile advertises closing statements for bank accounts only) / account-info / tax / profile, each with symbolic dryrun, skip_profile, persist_cookies, advertised URL equal to or different from the configured one, profile cached or not",
@@ -234,6 +271,8 @@ def instances(tier, seed):
     out = []
     for k in ("statements", "accounts", "tax", "profile"):
         out.append(dict(name=f"send[{k}]", harness="send", fn=h_send, params=dict(kind=k), opts=dict(wall_s=300, max_paths=2000)))
+    for k in ("statements", "accounts", "tax"):
+        out.append(dict(name=f"send_fault[{k}]", harness="send_fault", fn=h_send_fault, params=dict(kind=k), opts=dict(wall_s=300, max_paths=2000)))
     out.append(dict(name="jars", harness="jars", fn=h_jars, params={}, opts=dict(wall_s=60)))
     out.append(dict(name="two_institutions", harness="two_institutions", fn=h_two_institutions, params={}, opts=dict(wall_s=300)))
     return out
